@@ -605,8 +605,20 @@ class _Log:
         with open(self.path) as f:
             for line in f:
                 p = line.split()
+                if p[0] == 'S':
+                    continue
                 ev.append((p[0], int(p[1]), int(p[2]), float(p[3]), float(p[4])))
         return ev
+
+    def solves(self):
+        """(dispatch count, kind, tol as hex) of every solve the wrapper saw."""
+        sv = []
+        with open(self.path) as f:
+            for line in f:
+                p = line.split()
+                if p[0] == 'S':
+                    sv.append((int(p[1]), p[2], p[3]))
+        return sorted(sv)
 
     def __exit__(self, *a):
         global _LOG_FD
@@ -925,6 +937,13 @@ def _delayed_solve(inp):
     t0 = time.monotonic()
     if d:
         time.sleep(d / 1000.0)
+    try:        # what this solve actually received (file mode: what the hand-over file holds)
+        from emg3d import io as _io
+        d_in = _io.load(inp, verb=0)['data'] if isinstance(inp, str) else inp
+        kind = 'forward' if 'source' in d_in else 'sfield'
+        _log(f"S {i} {kind} {float(d_in['solver_opts']['tol']).hex()}")
+    except Exception as e:      # noqa
+        _log(f"S {i} unreadable {type(e).__name__}")
     out = st['orig'](inp)
     _log(f"T {i} {os.getpid()} {t0!r} {time.monotonic()!r}")
     return out
@@ -1022,7 +1041,11 @@ def build_sim(spec, max_workers, file_dir):
         gridding, gopts = 'dict', {sk: dict(gr) for sk in survey.sources.keys()}
     sim = emg3d.Simulation(survey, model, max_workers=max_workers, gridding=gridding,
                            gridding_opts=gopts,
-                           file_dir=file_dir, solver_opts={'sslsolver': False, 'maxit': 30},
+                           file_dir=file_dir,
+                           solver_opts=dict({'sslsolver': False, 'maxit': 30},
+                                            **({'tol': spec['tols'][0],
+                                                'tol_gradient': spec['tols'][1]}
+                                               if spec.get('tols') else {})),
                            tqdm_opts=False, receiver_interpolation='linear', verb=-1)
     return sim
 
@@ -1278,6 +1301,121 @@ def sized_grids_hits(rng, workers=(2, 3), hist=None):
     return hits
 
 
+# ---- sequences of runs of different kinds (forward / back-propagation / jvec) ----
+TOL_SEQUENCE = ['compute', 'jvec', 'gradient', "clean('computed')", 'compute', 'gradient']
+
+
+def run_tol_sequence(spec, max_workers, file_dir, obs):
+    """compute -> (misfit) -> jvec -> gradient -> clean('computed') -> compute -> gradient on
+    one simulation; returns the observables after every stage and what every solve received."""
+    fd = tempfile.mkdtemp(prefix='c11_tol_') if file_dir else None
+    try:
+        nt = len(spec['src']) * len(spec['freqs'])
+        with _Log() as lg, _TqdmMasked(False), _PatchedSolve([]):
+            sim = build_sim(spec, max_workers, fd)
+            sim.survey.data['observed'][...] = obs
+            digs = {}
+
+            def fields(tag):
+                for (s_, f_) in sim._srcfreq:
+                    digs[f"{tag}:efield[{s_}][{f_}]"] = _bytes(sim.get_efield(s_, f_).field)
+                digs[f"{tag}:synthetic"] = _bytes(sim.data.synthetic.data)
+            sim.compute()
+            fields('1 compute')
+            digs['1 misfit'] = float(sim.misfit).hex()
+            vec = np.random.RandomState(spec['vec_seed'] % 2**31).randint(
+                -8, 9, sim.model.shape) / 8.0
+            digs['2 jvec'] = _bytes(sim.jvec(vec))
+            digs['3 gradient'] = _bytes(sim.gradient)
+            for (s_, f_) in sim._srcfreq:
+                digs[f"3 bfield[{s_}][{f_}]"] = _bytes(sim._dict_get('bfield', s_, f_).field)
+            sim.clean('computed')
+            sim.compute()
+            fields('5 compute')
+            digs['5 misfit'] = float(sim.misfit).hex()
+            digs['6 gradient'] = _bytes(sim.gradient)
+            solves = lg.solves()
+        # group by run: the r-th process_map call has dispatch counts [r*nt, (r+1)*nt)
+        runs = {}
+        for (i, kind, tol) in solves:
+            runs.setdefault(i // nt, []).append((kind, tol))
+        return digs, [sorted(runs[r]) for r in sorted(runs)]
+    except Exception as e:      # noqa
+        return {'raised': type(e).__name__ + ': ' + str(e)[:300]}, []
+    finally:
+        if fd:
+            shutil.rmtree(fd, ignore_errors=True)
+
+
+def model_tolerances(tols, ntasks):
+    """What Model/Sched.v says every task of the five runs of TOL_SEQUENCE carries."""
+    txt = ("From Coq Require Import List QArith.\nFrom V Require Import Base.ExecQ Model.Sched.\n"
+           "Import ListNotations.\nSet Printing Width 100000.\n"
+           f"Eval vm_compute in map (fun k => (kind_code k, out_q (tol_of {V.q(tols[0])} "
+           f"{V.q(tols[1])} k))) [KForward; KJvec; KBackprop; KForward; KBackprop].\n")
+    rc, out = V.coq_eval('c11_tol', txt)
+    if rc != 0:
+        raise RuntimeError('tolerance model does not evaluate: ' + out[-600:])
+    import re
+    nums = [int(x) for x in re.findall(r'-?\d+', V.eval_answers(out)[0])]
+    res = []
+    for k in range(0, len(nums), 3):
+        kind = 'forward' if nums[k] == 0 else 'sfield'
+        tol = float(nums[k + 1]) / float(nums[k + 2])
+        res.append(sorted([(kind, tol.hex())] * ntasks))
+    return res
+
+
+def tol_sequence_hits(rng, configs, hist=None):
+    """Runs of different kinds on ONE simulation with tol != tol_gradient: every configuration
+    must reproduce the sequential in-memory observables bit for bit and every solve must
+    receive the tolerance of ITS kind of run."""
+    spec = gen_survey_spec(rng, dims=(2, 2, 2))
+    spec['shape'] = [4, 4, 4]
+    spec['h'] = [[200.0] * 4, [200.0] * 4, [200.0] * 4]
+    spec['prop'] = (spec['prop'] * 2)[:64]
+    spec['aniso'] = 'isotropic'
+    spec['tols'] = [1e-7, 1e-3]
+    sim = build_sim(spec, 1, None)
+    sim.compute()
+    obs = sim.data.synthetic.data.copy() * spec['obs_scale']
+    nt = 4
+    want_tols = model_tolerances(spec['tols'], nt)
+    ref, ref_tols = run_tol_sequence(spec, 1, False, obs)
+    hits = []
+    for (mw, fdir) in [(1, False)] + list(configs):
+        digs, got = (ref, ref_tols) if (mw, fdir) == (1, False) else \
+            run_tol_sequence(spec, mw, fdir, obs)
+        if hist is not None:
+            hist['sim:tol_sequence'] = hist.get('sim:tol_sequence', 0) + 1
+        bad = []
+        if 'raised' in digs:
+            bad.append('sequence raised ' + digs['raised'])
+        elif digs != ref:
+            bad += [k for k in ref if digs.get(k) != ref[k]][:6]
+        if got != want_tols:
+            r = next((j for j in range(min(len(got), len(want_tols))) if got[j] != want_tols[j]),
+                     min(len(got), len(want_tols)))
+            names = ['compute', 'jvec', 'gradient (back-propagation)', 'compute after clean',
+                     'gradient after clean']
+            g = sorted({float.fromhex(t) for _, t in got[r]}) if r < len(got) else 'missing'
+            w = sorted({float.fromhex(t) for _, t in want_tols[r]}) if r < len(want_tols) else '-'
+            bad.append(f"solves of run {r} ({names[r] if r < 5 else '?'}) received tol {g}, "
+                       f"their kind of run requires {w}")
+        if bad:
+            hits.append({'signature': 'simulation result depends on execution configuration',
+                         'kind': 'tol_sequence', 'spec': spec,
+                         'config': {'max_workers': mw, 'file_dir': fdir,
+                                    'solver_opts': {'tol': 1e-7, 'tol_gradient': 1e-3},
+                                    'sequence': TOL_SEQUENCE},
+                         'observed': '; '.join(bad),
+                         'required': 'observables bit-identical to max_workers=1 in memory; '
+                                     'forward solves get tol, back-propagation / jvec solves get '
+                                     'tol_gradient'})
+            break
+    return hits
+
+
 def correspondence_sim(ctx, dis, hist):
     nsurv = 4 if ctx.thorough else 2
     runs, perturbed, samples, distinct = 0, 0, [], set()
@@ -1345,6 +1483,15 @@ def correspondence_sim(ctx, dis, hist):
                     'impl': h['observed'], 'model': h['required'], 'spec_full': h['spec']})
     runs += 2
     distinct.add(('sized_grids',))
+    # runs of different kinds on one simulation, tol != tol_gradient
+    for h in tol_sequence_hits(ctx.rng, [(1, True)] + ([(2, True), (2, False)] if ctx.thorough
+                                                       else []), hist):
+        dis.append({'what': 'sequence compute/jvec/gradient/clean/compute with tol != '
+                            'tol_gradient: ' + h['observed'][:300],
+                    'signature': h['signature'], 'case': {'config': h['config']},
+                    'impl': h['observed'], 'model': h['required'], 'spec_full': h['spec']})
+    runs += 2
+    distinct.add(('tol_sequence',))
     # arbitrary string keys (file names must not depend on what the keys contain)
     spec = gen_survey_spec(ctx.rng, adversarial_keys=True)
     obs, ref = reference(spec)
@@ -1461,6 +1608,9 @@ def search(ctx, broken):
                 break
         if hits:
             break
+    # 1b. runs of different kinds with tol != tol_gradient, memory and file based
+    if not hits:
+        hits += tol_sequence_hits(rng, [(1, True), (2, True), (2, False)])
     # 2. grids of different sizes, in memory, several workers
     if not hits:
         hits += sized_grids_hits(rng, (2, 3, 4))
@@ -1514,6 +1664,9 @@ def replay(ctx, payload):
         obs, ref = reference(spec)
         digs, _ = run_sim_config(spec, cfg, obs)
         return not compare_digests(ref[cfg['what']], digs)
+    if fi.get('kind') == 'tol_sequence':
+        c = fi['config']
+        return not tol_sequence_hits(ctx.rng, [(c['max_workers'], c['file_dir'])])
     if fi.get('kind') == 'own_task':
         obs, _ref = reference(fi['spec'])
         return not own_task_oracle(fi['spec'], obs)
